@@ -342,6 +342,7 @@ class SolverSeam:
         self.record_args = False
         self.fired = 0
         self.ref_at = None
+        self.n_solves = 0
 
     def reset(self, fault_at=None, fault_kind=None, record_args=False, ref_at=None):
         self.calls = []
@@ -349,7 +350,8 @@ class SolverSeam:
         self.fault_kind = fault_kind
         self.record_args = record_args
         self.fired = 0
-        self.ref_at = ref_at  # reference run: fit #ref_at is performed directly without weight normalisation
+        self.n_solves = 0
+        self.ref_at = ref_at  # reference run: the fit containing solve #ref_at is performed directly without weight normalisation
 
     def install(self):
         if self.installed:
@@ -361,6 +363,10 @@ class SolverSeam:
         seam = self
 
         class SimQuantileRegressionSolver(RealQR):
+            """Real solver; every fit call and every single-quantile solve inside it is logged; the k-th SOLVE of the run can
+            be made to fail (once), at the place where a real solver fails: inside the solve, after earlier quantiles of
+            the same fit call have already been stored on the object."""
+
             _sim_serial = [0]
 
             def __init__(self):
@@ -368,23 +374,15 @@ class SolverSeam:
                 SimQuantileRegressionSolver._sim_serial[0] += 1
                 self._sim_id = SimQuantileRegressionSolver._sim_serial[0]
 
-            def fit(self, x, y, *args, **kwargs):
-                idx = len(seam.calls)
-                rec = dict(idx=idx, obj=self._sim_id, n_pos=len(args), kw=sorted(kwargs), raised=None)
-                if seam.record_args:
-                    rec["x"] = np.array(x, copy=True)
-                    rec["y"] = np.array(y, copy=True)
-                    rec["kwargs"] = {
-                        k: (np.array(v, copy=True) if isinstance(v, np.ndarray) else v) for k, v in kwargs.items()
-                    }
-                    rec["args"] = args
-                seam.calls.append(rec)
-                if seam.ref_at is not None and idx == seam.ref_at:
-                    kwargs = dict(kwargs, normalize_weights=False)
-                    rec["ref_direct"] = True
-                if seam.fault_at is not None and idx == seam.fault_at:
+            def _sim_solve_hook(self):
+                k = seam.n_solves
+                seam.n_solves += 1
+                if seam.calls:
+                    seam.calls[-1]["solves"].append(k)
+                if seam.fault_at is not None and k == seam.fault_at and seam.fired == 0:
                     seam.fired += 1
-                    rec["raised"] = seam.fault_kind
+                    if seam.calls:
+                        seam.calls[-1]["raised"] = seam.fault_kind
                     if seam.fault_kind == "solver_error":
                         raise cvxpy.error.SolverError("injected: solver failed")
                     # the inaccuracy warning of cvxpy, attributed to the module that emits it in production;
@@ -398,6 +396,31 @@ class SolverSeam:
                         module="cvxpy.problems.problem",
                         registry={},
                     )
+
+            def _fit(self, *a, **k):
+                self._sim_solve_hook()
+                return super()._fit(*a, **k)
+
+            def _fit_with_regularization(self, *a, **k):
+                self._sim_solve_hook()
+                return super()._fit_with_regularization(*a, **k)
+
+            def fit(self, x, y, *args, **kwargs):
+                idx = len(seam.calls)
+                rec = dict(idx=idx, obj=self._sim_id, n_pos=len(args), kw=sorted(kwargs), raised=None, solves=[], first_solve=seam.n_solves)
+                if seam.record_args:
+                    rec["x"] = np.array(x, copy=True)
+                    rec["y"] = np.array(y, copy=True)
+                    rec["kwargs"] = {
+                        k: (np.array(v, copy=True) if isinstance(v, np.ndarray) else v) for k, v in kwargs.items()
+                    }
+                    rec["args"] = args
+                seam.calls.append(rec)
+                taus = kwargs.get("taus", args[0] if args else 0.5)
+                n_taus = 1 if isinstance(taus, float) else len(list(taus))
+                if seam.ref_at is not None and seam.n_solves <= seam.ref_at < seam.n_solves + n_taus and kwargs.get("normalize_weights", True):
+                    kwargs = dict(kwargs, normalize_weights=False)
+                    rec["ref_direct"] = True
                 r = super().fit(x, y, *args, **kwargs)
                 rec["coef"] = np.array(self.coefficients, copy=True) if seam.record_args else None
                 return r
